@@ -172,8 +172,10 @@ def fold(prop, mod, tier, seed, results, t0):
         'wall_s': round(time.monotonic() - t0, 2),
         'violations': len(new_violations),
     }
-    os.makedirs(os.path.join(VERIF, 'evidence'), exist_ok=True)
-    with open(os.path.join(VERIF, 'evidence', f'{prop}.json'), 'w') as f:
+    # runs against a scratch copy of the repository (seeded changes, refactorings) must not overwrite the evidence of /repo
+    evdir = os.environ.get('VT_EVIDENCE_DIR') or os.path.join(VERIF, 'evidence')
+    os.makedirs(evdir, exist_ok=True)
+    with open(os.path.join(evdir, f'{prop}.json'), 'w') as f:
         json.dump(evidence, f, indent=1, sort_keys=True)
         f.write('\n')
 
